@@ -300,6 +300,12 @@ func c16Check(c C16Case, cx *h.Ctx) *h.Failure {
 		return fail("ctype/construct-readback", "constructed geometry reads back differently: %s", d)
 	}
 
+	// sequences that are views of a longer parent (Sequence.Slice): nothing done to a geometry built on the view
+	// may write to the parent
+	if f := c16Views(model, fail, cx); f != nil {
+		return f
+	}
+
 	// mixed-ctype construction: constructors reduce to the common subset
 	if len(model.Mem) > 0 {
 		if f := c16Mixed(c, model, fail); f != nil {
@@ -503,6 +509,73 @@ func c16Check(c C16Case, cx *h.Ctx) *h.Failure {
 		cx.NonTrivial()
 	}
 	cx.Sample(map[string]interface{}{"g": clip(model.String(), 300)})
+	return nil
+}
+
+// c16Views: every line of the model is rebuilt as a Slice view into a parent sequence that continues with
+// sentinel positions; the line is placed first in a collection together with the other members, and the usual
+// read operations are applied; the parent must read back unchanged and the results must be those of a line built
+// on a private copy.
+func c16Views(model gm.G, fail func(class, format string, args ...interface{}) *h.Failure, cx *h.Ctx) *h.Failure {
+	var lines []gm.G
+	model.Walk(func(n gm.G) {
+		if n.T == gm.LineString && len(n.Co) > 0 && len(lines) < 2 {
+			lines = append(lines, n)
+		}
+	})
+	for _, ln := range lines {
+		d := gm.Dim(ln.CT)
+		n := len(ln.Co) / d
+		parentFloats := make([]float64, 0, (n+3)*d)
+		for _, f := range ln.Co {
+			parentFloats = append(parentFloats, float64(f))
+		}
+		for k := 0; k < 3*d; k++ {
+			parentFloats = append(parentFloats, 7777+float64(k)) // sentinel positions after the view
+		}
+		want := append([]float64(nil), parentFloats...)
+		ct := geom.CoordinatesType(ln.CT)
+		parent := geom.NewSequence(parentFloats, ct)
+		view := parent.Slice(0, n)
+		ls := geom.NewLineString(view)
+		other := geom.NewPointXY(1, 2).ForceCoordinatesType(ct).AsGeometry()
+		gc := geom.NewGeometryCollection([]geom.Geometry{ls.AsGeometry(), other, ls.AsGeometry()}).AsGeometry()
+		mls := geom.NewMultiLineString([]geom.LineString{ls, ls}).AsGeometry()
+		private := ln.ToGeom()
+		for _, x := range []geom.Geometry{gc, mls, ls.AsGeometry()} {
+			_ = x.DumpCoordinates()
+			_ = x.Summary()
+			_ = x.AsText()
+			_ = x.AsBinary()
+			_ = x.Reverse()
+			_ = x.Force2D()
+			_ = x.ForceCoordinatesType(geom.DimXYZM)
+			_ = x.TransformXY(func(p geom.XY) geom.XY { return geom.XY{X: p.X + 1, Y: p.Y} })
+			_ = x.Densify(1e9)
+			_ = x.Envelope()
+			_ = x.Dump()
+		}
+		if got := gm.FromGeom(ls.AsGeometry()); gm.Diff(gm.FromGeom(private), got) != "" {
+			return fail("ctype/view-line-differs", "a LineString built on a Slice view reads %s, the same line built on a private sequence %s", got, gm.FromGeom(private))
+		}
+		for i := 0; i < parent.Length(); i++ {
+			c := parent.Get(i)
+			got := []float64{c.X, c.Y}
+			if ct.Is3D() {
+				got = append(got, c.Z)
+			}
+			if ct.IsMeasured() {
+				got = append(got, c.M)
+			}
+			for j := range got {
+				w := want[i*d+j]
+				if got[j] != w && !(got[j] != got[j] && w != w) {
+					return fail("pure/view-parent-modified", "operations on geometries built on parent.Slice(0,%d) changed position %d of the parent sequence: %v, was %v", n, i, got, want[i*d:(i+1)*d])
+				}
+			}
+		}
+		cx.Count("slice_views_checked", 1)
+	}
 	return nil
 }
 
